@@ -242,7 +242,7 @@ Qed.
 (* the whole tapscript session: the BIP341 commitment rule decides whether the script runs at all (C05), and if it does the session is one
    evaluation of the committed script with the leaf hash installed *)
 Theorem tapscript_session : forall control program script m stack ed f,
-  (forall x, length (sha256 x) = 32%nat) -> length control = (33 + 32 * m)%nat -> (c_sigver c =? SV_BASE) = false -> script <> [] ->
+  (forall x, length (sha256 x) = 32%nat) -> length control = (33 + 32 * m)%nat -> (c_sigver c =? SV_BASE) = false ->
   let t0 := tce_new sha256 control program script in
   let v0 := setup_env c script stack [] ed (Some t0) in
   let e_run := set_ed (i_e v0) (ed_set_tapleaf (e_ed (i_e v0)) (spec_leaf sha256 control script)) in
@@ -251,9 +251,9 @@ Theorem tapscript_session : forall control program script m stack ed f,
   then ended (dbg_continue f c v0) (match eval_ref low_s c e_run script with (e1, SOk) => finish e1 | (e1, st) => failed_verdict e1 st end)
   else exists v1, dbg_continue f c v0 = (v1, SErr) /\ i_e v1 = i_e v0.
 Proof.
-  intros control program script m stack ed f Hlen Hctl Hsv Hne t0 v0 e_run Hf.
+  intros control program script m stack ed f Hlen Hctl Hsv t0 v0 e_run Hf.
   destruct (commitment_done_iff tap_tweak_ok sha256 Hlen control program script m Hctl) as (t' & Hrun & _ & Hleaf).
-  assert (Hd0: i_done v0 = false) by (cbn; destruct script; [contradiction|reflexivity]).
+  assert (Hd0: i_done v0 = false) by (cbn; destruct script; reflexivity).
   pose proof (tce_phase (S m) t0 v0 f eq_refl Hd0 ltac:(lia)) as P. fold t0 in Hrun. rewrite Hrun in P.
   destruct (spec_commit_ok tap_tweak_ok sha256 control program script).
   - destruct P as (v1 & f1 & Hc & Hfu & Ht1 & He & Hp & Hd1 & Hp2 & Hs).
